@@ -272,7 +272,7 @@ func (p *Path) domOf(v *Term) *dom {
 
 // domainDecide returns (feasibleTrue, feasibleFalse, decided).
 func (p *Path) domainDecide(c *Term) (bool, bool, bool) {
-	if len(c.vars) != 1 {
+	if !p.w.cfg.Domain || len(c.vars) != 1 {
 		return false, false, false
 	}
 	v := c.vars[0]
